@@ -1503,6 +1503,11 @@ func (is *iterScanner) Next() bool {
 		return false
 	}
 
+	// a later page may describe another number of columns than the page the scanner was made for
+	if n := len(iter.meta.columns); len(is.cols) != n {
+		is.cols = make([][]byte, n)
+	}
+
 	for i := 0; i < len(is.cols); i++ {
 		col, err := iter.readColumn()
 		if err != nil {
